@@ -492,3 +492,314 @@ func indexIn(ins ssa.Instruction) int {
 	}
 	return -1
 }
+
+// cellStores: every store to a local variable's cell - in the function that declares it and, through the captured reference, in the
+// closures (nested to any depth) that capture it. escaped is true when the cell's address goes anywhere else (passed to a call,
+// stored), so the list may be incomplete.
+func cellStores(al *ssa.Alloc) (stores []*ssa.Store, escaped bool) {
+	var walk func(addr ssa.Value, depth int)
+	walk = func(addr ssa.Value, depth int) {
+		refs := addr.Referrers()
+		if refs == nil || depth > 6 {
+			return
+		}
+		for _, ref := range *refs {
+			switch x := ref.(type) {
+			case *ssa.Store:
+				if x.Addr == addr {
+					stores = append(stores, x)
+				} else {
+					escaped = true
+				}
+			case *ssa.UnOp, *ssa.DebugRef:
+			case *ssa.MakeClosure:
+				g, _ := x.Fn.(*ssa.Function)
+				if g == nil {
+					escaped = true
+					continue
+				}
+				for j, b := range x.Bindings {
+					if b == addr && j < len(g.FreeVars) {
+						walk(g.FreeVars[j], depth+1)
+					}
+				}
+			default:
+				escaped = true
+			}
+		}
+	}
+	walk(al, 0)
+	return
+}
+
+// cellSingleValue: v is a load of a variable that lives in a cell and is assigned exactly once anywhere (declaring function and
+// closures): the assigned value. nil otherwise.
+func cellSingleValue(v ssa.Value) ssa.Value {
+	al := cellOf(v)
+	if al == nil {
+		return nil
+	}
+	st, esc := cellStores(al)
+	if esc || len(st) != 1 {
+		return nil
+	}
+	return stripIdentity(st[0].Val)
+}
+
+// sameElemLoad: a and b read the same element: identical values, or loads of base[idx] with the same list value (or the same
+// once-assigned / append-only variable) and the same index value.
+func sameElemLoad(a, b ssa.Value) bool {
+	a, b = stripIdentity(a), stripIdentity(b)
+	if a == b {
+		return true
+	}
+	la, ok1 := a.(*ssa.UnOp)
+	lb, ok2 := b.(*ssa.UnOp)
+	if !ok1 || !ok2 || la.Op != token.MUL || lb.Op != token.MUL {
+		return false
+	}
+	ia, ok1 := la.X.(*ssa.IndexAddr)
+	ib, ok2 := lb.X.(*ssa.IndexAddr)
+	if !ok1 || !ok2 || stripIdentity(ia.Index) != stripIdentity(ib.Index) {
+		return false
+	}
+	xa, xb := stripIdentity(ia.X), stripIdentity(ib.X)
+	if xa == xb {
+		return true
+	}
+	ca, cb := cellOf(xa), cellOf(xb)
+	return ca != nil && ca == cb
+}
+
+// guardTypesOf: the block is entered only over ok edges of checked assertions (the arms of a type switch) of the value `same`
+// recognises: the asserted types. nil when some way in is not such an edge.
+func guardTypesOf(b *ssa.BasicBlock, same func(ssa.Value) bool, depth int, seen map[*ssa.BasicBlock]bool) []types.Type {
+	if depth > 12 || seen[b] || len(b.Preds) == 0 {
+		return nil
+	}
+	seen[b] = true
+	var out []types.Type
+	for _, p := range b.Preds {
+		last := p.Instrs[len(p.Instrs)-1]
+		if iff, ok := last.(*ssa.If); ok {
+			if p.Succs[0] != b || p.Succs[1] == b {
+				return nil
+			}
+			ex, ok := iff.Cond.(*ssa.Extract)
+			if !ok || ex.Index != 1 {
+				return nil
+			}
+			ta, ok := ex.Tuple.(*ssa.TypeAssert)
+			if !ok || !ta.CommaOk || !same(ta.X) {
+				return nil
+			}
+			out = append(out, ta.AssertedType)
+			continue
+		}
+		if _, ok := last.(*ssa.Jump); ok {
+			sub := guardTypesOf(p, same, depth+1, seen)
+			if sub == nil {
+				return nil
+			}
+			out = append(out, sub...)
+			continue
+		}
+		return nil
+	}
+	return out
+}
+
+// elemOfTypeFilteredList: ta asserts an element of a local list (a variable of the function or of the enclosing one) that is only
+// ever extended by append, every appended value under the ok edge of a checked assertion (type switch arm) of that very value; the
+// asserted type is one of those types and every other one is excluded at the assertion by the failed edge of a checked assertion of
+// the same element. The list is read only by indexing, len and range, so no other value can enter it.
+func (w *World) elemOfTypeFilteredList(ta *ssa.TypeAssert) string {
+	ld, ok := stripIdentity(ta.X).(*ssa.UnOp)
+	if !ok || ld.Op != token.MUL {
+		return ""
+	}
+	ia, ok := ld.X.(*ssa.IndexAddr)
+	if !ok {
+		return ""
+	}
+	if _, isSlice := ia.X.Type().Underlying().(*types.Slice); !isSlice {
+		return ""
+	}
+	var appends []*ssa.Call
+	listVals := map[ssa.Value]bool{}
+	cells := map[*ssa.Alloc]bool{}
+	var walk func(x ssa.Value, depth int) bool
+	walk = func(x ssa.Value, depth int) bool {
+		x = stripIdentity(x)
+		if depth > 10 {
+			return false
+		}
+		if listVals[x] {
+			return true
+		}
+		listVals[x] = true
+		switch y := x.(type) {
+		case *ssa.Const:
+			return y.IsNil()
+		case *ssa.MakeSlice:
+			c, ok := y.Len.(*ssa.Const)
+			return ok && c.Int64() == 0
+		case *ssa.Phi:
+			for _, e := range y.Edges {
+				if !walk(e, depth+1) {
+					return false
+				}
+			}
+			return true
+		case *ssa.Call:
+			if bi, ok := y.Call.Value.(*ssa.Builtin); ok && bi.Name() == "append" && len(y.Call.Args) == 2 {
+				appends = append(appends, y)
+				return walk(y.Call.Args[0], depth+1)
+			}
+		case *ssa.UnOp:
+			al := cellOf(y)
+			if al == nil {
+				return false
+			}
+			if cells[al] {
+				return true
+			}
+			cells[al] = true
+			st, esc := cellStores(al)
+			if esc {
+				return false
+			}
+			for _, s := range st {
+				if !walk(s.Val, depth+1) {
+					return false
+				}
+			}
+			return true
+		}
+		return false
+	}
+	if !walk(ia.X, 0) || len(appends) == 0 {
+		return ""
+	}
+	// the list values are used only to index for reading, measure, range, extend and be stored back into the variable
+	isListVal := func(v ssa.Value) bool {
+		v = stripIdentity(v)
+		if listVals[v] {
+			return true
+		}
+		if al := cellOf(v); al != nil && cells[al] {
+			return true
+		}
+		return false
+	}
+	fns := map[*ssa.Function]bool{}
+	for v := range listVals {
+		if in, ok := v.(ssa.Instruction); ok && in.Parent() != nil {
+			fns[in.Parent()] = true
+			for _, a := range in.Parent().AnonFuncs {
+				fns[a] = true
+			}
+			if p := in.Parent().Parent(); p != nil {
+				fns[p] = true
+			}
+		}
+	}
+	fns[ta.Parent()] = true
+	okUse := true
+	for fn := range fns {
+		forEachInstr(fn, func(_ *ssa.BasicBlock, ins ssa.Instruction) {
+			if !okUse {
+				return
+			}
+			for _, op := range ins.Operands(nil) {
+				if *op == nil || !isListVal(*op) {
+					continue
+				}
+				switch x := ins.(type) {
+				case *ssa.IndexAddr:
+					if x.X != *op {
+						okUse = false
+					}
+					for _, ref := range *x.Referrers() {
+						if st, ok := ref.(*ssa.Store); ok && st.Addr == ssa.Value(x) {
+							okUse = false
+						}
+					}
+				case *ssa.Call:
+					bi, ok := x.Call.Value.(*ssa.Builtin)
+					if !ok || !(bi.Name() == "len" || bi.Name() == "cap" || (bi.Name() == "append" && x.Call.Args[0] == *op)) {
+						okUse = false
+					}
+				case *ssa.Range, *ssa.Phi, *ssa.DebugRef:
+				case *ssa.Store:
+					if al := cellOfAddr(x.Addr); al == nil || !cells[al] {
+						okUse = false
+					}
+				case *ssa.ChangeType, *ssa.MakeInterface:
+					okUse = false
+				default:
+					okUse = false
+				}
+			}
+		})
+	}
+	if !okUse {
+		return ""
+	}
+	var allowed []types.Type
+	for _, ap := range appends {
+		ops := variadicOperands(ap.Call.Args[1])
+		if len(ops) == 0 {
+			return ""
+		}
+		for _, o := range ops {
+			if o == nil {
+				return ""
+			}
+			o := o
+			ts := guardTypesOf(ap.Block(), func(v ssa.Value) bool { return sameElemLoad(v, o) }, 0, map[*ssa.BasicBlock]bool{})
+			if len(ts) == 0 {
+				return ""
+			}
+			allowed = append(allowed, ts...)
+		}
+	}
+	in := false
+	for _, t := range allowed {
+		if types.Identical(t, ta.AssertedType) {
+			in = true
+		}
+	}
+	if !in {
+		return ""
+	}
+	// every other admitted type is excluded by a failed checked assertion of the same element
+	fn := ta.Parent()
+	for _, t := range allowed {
+		if types.Identical(t, ta.AssertedType) {
+			continue
+		}
+		excluded := false
+		forEachInstr(fn, func(_ *ssa.BasicBlock, ins ssa.Instruction) {
+			o, ok := ins.(*ssa.TypeAssert)
+			if !ok || !o.CommaOk || !types.Identical(o.AssertedType, t) || !sameElemLoad(o.X, ta.X) || o.Referrers() == nil {
+				return
+			}
+			for _, r2 := range *o.Referrers() {
+				ex, ok := r2.(*ssa.Extract)
+				if !ok || ex.Index != 1 || ex.Referrers() == nil {
+					continue
+				}
+				for _, r3 := range *ex.Referrers() {
+					if iff, ok := r3.(*ssa.If); ok && edgeDominates(iff.Block(), 1, ta.Block()) {
+						excluded = true
+					}
+				}
+			}
+		})
+		if !excluded {
+			return ""
+		}
+	}
+	return fmt.Sprintf("element of a list that is filled only under checked assertions to %d types; the other ones are excluded by failed checked assertions of the same element", len(allowed))
+}
